@@ -3,6 +3,7 @@ package engine
 import (
 	"fmt"
 	"go/token"
+	"go/types"
 	"sort"
 	"strings"
 
@@ -33,6 +34,35 @@ type Slicer struct {
 	Through Transparent
 	// MaxNodes bounds the traversal; 0 means 10000.
 	MaxNodes int
+	// Fields adds a "field" origin (name "Type.Field" or ".Field") for every
+	// struct field selection the value passes through.
+	Fields bool
+}
+
+// FieldOf names the field selected by a FieldAddr / Field instruction.
+func FieldOf(v ssa.Value) string {
+	var t types.Type
+	idx := -1
+	switch x := v.(type) {
+	case *ssa.FieldAddr:
+		t, idx = x.X.Type(), x.Field
+	case *ssa.Field:
+		t, idx = x.X.Type(), x.Field
+	default:
+		return ""
+	}
+	if p, ok := t.Underlying().(*types.Pointer); ok {
+		t = p.Elem()
+	}
+	st, ok := t.Underlying().(*types.Struct)
+	if !ok || idx < 0 || idx >= st.NumFields() {
+		return ""
+	}
+	name := st.Field(idx).Name()
+	if n, ok := t.(*types.Named); ok {
+		return n.Obj().Name() + "." + name
+	}
+	return "." + name
 }
 
 // Origins returns the leaves from which v is computed.
@@ -121,8 +151,14 @@ func (s Slicer) Origins(v ssa.Value) []Origin {
 		case *ssa.SliceToArrayPointer:
 			walk(v.X)
 		case *ssa.Field:
+			if s.Fields {
+				add(Origin{Kind: "field", V: v, Name: FieldOf(v)})
+			}
 			walk(v.X)
 		case *ssa.FieldAddr:
+			if s.Fields {
+				add(Origin{Kind: "field", V: v, Name: FieldOf(v)})
+			}
 			walk(v.X)
 		case *ssa.Index:
 			walk(v.X)
@@ -176,6 +212,9 @@ func (s Slicer) load(addr ssa.Value, walk func(ssa.Value), add func(Origin)) {
 	case *ssa.Alloc:
 		s.contents(a, walk, add)
 	case *ssa.FieldAddr:
+		if s.Fields {
+			add(Origin{Kind: "field", V: a, Name: FieldOf(a)})
+		}
 		// a field of a local struct: stores to that same field of the same base
 		if base, ok := a.X.(*ssa.Alloc); ok {
 			found := false
